@@ -1,5 +1,5 @@
 (* C17 — pushed authorization requests are one-time, client-bound and authoritative.  Statements only. *)
-From FositeModel Require Import Base.Str Model.Scope Model.Core Model.Flows Proofs.C17Proofs.
+From FositeModel Require Import Base.Str Model.Scope Model.Core Model.Flows Cases.CasesHist Cases.Monitors Proofs.C17Proofs Proofs.MonitorC17.
 
 (* the push endpoint: client authentication, no request_uri inside, the request belongs to the authenticated
    client, validated against that client's registration; what is stored is what was pushed *)
@@ -64,3 +64,16 @@ Theorem C17_pushed_response_mode_authoritative : forall cfg s cp uri a k pr,
   o_err (snd (authorize_par cfg s cp uri a)) = "" -> o_scopes (snd (authorize_par cfg s cp uri a)) = [r_mode pr].
 Proof. exact pushed_response_mode_authoritative. Qed.
 Print Assumptions C17_pushed_response_mode_authoritative.
+
+(* the clauses of the history monitor that do not read its tracker (pushes: authenticated, bound to the authenticated
+   client, no request_uri inside; plain authorizations: refused when pushing is enforced) accept the model's answer to the
+   operation in every state, whatever the tracker and the probes say *)
+Theorem C17_monitor_push_clause_holds_of_the_model : forall cfg m s auth bc ru a pr,
+  fst (fst (judge_C17 cfg m (OPush auth bc ru a) (snd (step cfg s (OPush auth bc ru a))) pr)) = None.
+Proof. exact judge_C17_push_sound. Qed.
+Print Assumptions C17_monitor_push_clause_holds_of_the_model.
+
+Theorem C17_monitor_enforcement_clause_holds_of_the_model : forall cfg m s a pr,
+  fst (fst (judge_C17 cfg m (OAuthorize a) (snd (step cfg s (OAuthorize a))) pr)) = None.
+Proof. exact judge_C17_authorize_sound. Qed.
+Print Assumptions C17_monitor_enforcement_clause_holds_of_the_model.
